@@ -21,8 +21,15 @@ def main():
             if o["status"] != "discharged":
                 bad += 1
                 print("   ", o["status"], o["name"], o["reason"], json.dumps(o.get("model"))[:600])
+        for o in r.obligations:
+            if o["seconds"] > 1.0:
+                print("    slow:", o["name"], o["seconds"], o["backend"])
         for n in r.notes:
+            if n.startswith("rx-fact"):
+                continue
             print("    note:", n)
+    from pyvc.solve import FEAS_STATS
+    print('feasibility checks:', FEAS_STATS)
     return 1 if bad else 0
 
 
